@@ -7,6 +7,7 @@ import (
 	"encoding/json"
 	"fmt"
 	"os"
+	"runtime"
 	"sort"
 	"strconv"
 	"strings"
@@ -181,6 +182,22 @@ func Deadline() time.Time {
 }
 
 var procStart = time.Now()
+
+// MemoryExceeded reports whether this worker's heap has outgrown its budget ($VERIF_MEM_MB, set by check.py from
+// the machine's memory and the number of workers; 0 / unset = no budget). Engines poll it between executions and
+// stop cleanly with a cap: running out of memory must cost coverage, never the verdict.
+func MemoryExceeded() (bool, string) {
+	mb, _ := strconv.Atoi(os.Getenv("VERIF_MEM_MB"))
+	if mb <= 0 {
+		return false, ""
+	}
+	var ms runtime.MemStats
+	runtime.ReadMemStats(&ms)
+	if used := int(ms.HeapAlloc >> 20); used > mb {
+		return true, fmt.Sprintf("memory budget reached (heap %d MB > %d MB)", used, mb)
+	}
+	return false, ""
+}
 
 // ReplayPath returns the replay file given with --replay (empty when exploring).
 func ReplayPath() string { return os.Getenv("VERIF_REPLAY") }
